@@ -106,6 +106,11 @@ func init() {
 				Quick:    sc2(sc("authFacts", 1), "az1Facts", 1, "az1Rule", 0, "az1Check", 0, "az2Facts", 0, "az2Rule", 0, "az2Check", 1),
 				Thorough: sc2(sc("authFacts", 1), "az1Facts", 1, "az1Rule", 1, "az1Check", 0, "az2Facts", 1, "az2Rule", 0, "az2Check", 1),
 				Covers:   []string{"compared"}},
+			// three rounds, two Resets; round 2 brings a fact that round 3 must not see
+			{Pkg: "biscuit", Func: "VerifC13Reset",
+				Quick:    sc2(sc("authFacts", 1, "thirdRound", 1), "az1Facts", 0, "az1Rule", 0, "az1Check", 0, "az2Facts", 1, "az2Rule", 0, "az2Check", 0),
+				Thorough: sc2(sc("authFacts", 1, "thirdRound", 1), "az1Facts", 0, "az1Rule", 1, "az1Check", 0, "az2Facts", 1, "az2Rule", 0, "az2Check", 0),
+				Covers:   []string{"compared"}},
 			// round 1 leaves derived facts and a check behind; round 2 has a rule of its own
 			{Pkg: "biscuit", Func: "VerifC13Reset",
 				Quick:    sc2(sc("authFacts", 1), "az1Facts", 1, "az1Rule", 1, "az1Check", 0, "az2Facts", 0, "az2Rule", 0, "az2Check", 1),
@@ -125,6 +130,11 @@ func init() {
 				Quick:    sc("authFacts", 1, "authRule", 1, "authCheck", 1, "blocks", 1, "blkFacts", 1, "blkCheck", 1),
 				Thorough: sc("authFacts", 1, "authRule", 1, "authCheck", 1, "blocks", 1, "blkFacts", 1, "blkCheck", 2, "policies", 1),
 				Covers:   []string{"compared"}})
+			// the issuer built the token on top of a symbol table of its own
+			c.Entries = append(c.Entries, EntrySpec{Pkg: "biscuit", Func: "VerifC09Equivalent",
+				Quick:    sc("authFacts", 1, "blocks", 1, "blkFacts", 1, "blkCheck", 1, "baseSyms", 1),
+				Thorough: sc("authFacts", 1, "authRule", 1, "blocks", 1, "blkFacts", 1, "blkCheck", 1, "baseSyms", 1),
+				Covers:   []string{"compared"}})
 		}
 	}
 }
@@ -141,6 +151,7 @@ func init() {
 				Thorough: p("authRule", 2, "authCheck", 0, "azRule", 1, "azRule2", 0, "qMode", 1, "policies", 1, "polMode", 1, "polq", 1),
 				Covers:   []string{"compared"}},
 			{Pkg: "biscuit", Func: "VerifC12RuleOrder", Quick: p("polq", 1), Thorough: p("polq", 1), Covers: []string{"compared"}},
+			{Pkg: "biscuit", Func: "VerifC12TwinRules", Quick: p("polq", 1), Thorough: p("polq", 1), Covers: []string{"compared"}},
 			{Pkg: "biscuit", Func: "VerifC12Twice",
 				Quick:    p("authFacts", 1, "authPad", 2, "blkFacts", 1, "blkCheck", 1, "blk2Facts", 1, "polq", 1),
 				Thorough: p("authFacts", 1, "authPad", 4, "blkFacts", 1, "blkCheck", 2, "blk2Facts", 1, "polq", 1),
@@ -157,7 +168,7 @@ func init() {
 		Entries: []EntrySpec{
 			{Pkg: "biscuit", Func: "VerifC18Snapshot",
 				Quick:    sc("authFacts", 1, "azFacts", 1, "azRule", 1, "azCheck", 1, "policies", 2),
-				Thorough: sc("authFacts", 1, "azFacts", 1, "azRule", 2, "azCheck", 1, "policies", 2),
+				Thorough: sc("authFacts", 1, "azFacts", 1, "azRule", 2, "azCheck", 1, "policies", 1),
 				Covers:   []string{"compared"}},
 			{Pkg: "biscuit", Func: "VerifC18RefusedAfterFailure", Quick: p("polq", 1), Thorough: p("polq", 1), Covers: []string{"evaluation-failed", "evaluation-succeeded"}},
 			// the snapshot that is loaded is the second one taken from the same authorizer
